@@ -1,10 +1,10 @@
 #!/bin/bash
-# usage: run_all.sh <tier> [ids...]   runs the already built binary for each check, prints verdict lines
+# usage: run_all.sh <tier> [ids...]   runs ./check (which rebuilds from /repo's working tree) for each id, prints verdict lines
 tier=${1:-quick}; shift
 ids=${@:-C01 C02 C03 C04 C06 C07 C08 C09 C10 C11 C12 C15 C16 C17 C18 C19 C20 C05 C13 C14}
 for c in $ids; do
   s=$(date +%s)
-  out=$(/verif/harness/target/debug/verif $c --tier $tier 2>&1)
+  out=$(/verif/check $c --tier $tier 2>&1)
   code=$?
   echo "== $c tier=$tier exit=$code wall=$(( $(date +%s) - s ))s"
   echo "$out" | grep -E "VIOLATION|signature|KNOWN|MACHINERY|OK property" | cut -c1-260
